@@ -33,8 +33,8 @@ def main():
     ap.add_argument('--skip-confirm', action='store_true')
     ap.add_argument('--round', type=int, default=1, help='2: second round (/tmp/seed2-<prop>/_seed/<A|B>, kept as <prop>-C / <prop>-D)')
     a = ap.parse_args()
-    sid = '%s-%s' % (a.prop, a.which if a.round == 1 else {2: {'A': 'C', 'B': 'D'}, 3: {'A': 'E', 'B': 'F'}, 4: {'A': 'G', 'B': 'H'}, 5: {'A': 'I', 'B': 'J'}}[a.round][a.which])
-    src = {1: '/tmp/seed-%s/_seed/%s', 2: '/tmp/seed2-%s/_seed/%s', 3: '/tmp/seed3-%s/_seed/%s', 4: '/tmp/seed4-%s/_seed/%s', 5: '/tmp/seed5-%s/_seed/%s'}[a.round] % (a.prop, a.which)
+    sid = '%s-%s' % (a.prop, a.which if a.round == 1 else {2: {'A': 'C', 'B': 'D'}, 3: {'A': 'E', 'B': 'F'}, 4: {'A': 'G', 'B': 'H'}, 5: {'A': 'I', 'B': 'J'}, 6: {'A': 'K', 'B': 'L'}}[a.round][a.which])
+    src = {1: '/tmp/seed-%s/_seed/%s', 2: '/tmp/seed2-%s/_seed/%s', 3: '/tmp/seed3-%s/_seed/%s', 4: '/tmp/seed4-%s/_seed/%s', 5: '/tmp/seed5-%s/_seed/%s', 6: '/tmp/seed6-%s/_seed/%s'}[a.round] % (a.prop, a.which)
     patch = os.path.join(src, 'patch.diff')
     wt = '/tmp/sw-%s' % sid
     vb = '/tmp/vb-%s' % sid
